@@ -31,6 +31,18 @@ TAG_POOL = ["Flow rate", "TT01", "pH", "UV 280", "Cond", "Pressure 1", "Level", 
 CMD_POOL = ["Flow", "Reset", "Valve", "Pump speed", "Area", "Zero UV", "Inlet", "Collect", "Set", "PU01"]
 SYSTEM_TAGS = {"Run Counter": None, "Block Time": "s", "Run Time": "s", "Process Time": "s", "Scope Time": "s"}
 OPS = ["<", "<=", ">", ">=", "=", "==", "!="]
+# hand-written argument patterns (with_command_regex_arguments accepts any regex with named groups; the first one is the
+# pattern of the project's own tests / doc strings).  Not all of them are anchored: what "the argument matches" means for
+# text around a matching core is decided by the parser, and the analyzer (validator published as RNAP-v1-<regex>) and the
+# engine (the same parser's parse) must agree on it.  "cores" are arguments that match from the first to the last character.
+HAND_REGEX = [
+    {"rx": r"(?P<value>[0-9]+[.][0-9]*?|[.][0-9]+|[0-9]+) ?(?P<unit>m2)", "cores": ["3.5 m2", "2 m2", ".5m2"]},   # unanchored
+    {"rx": r"^(?P<value>[0-9]+) ?(?P<unit>mL|L)", "cores": ["10 mL", "3L"]},                                      # start only
+    {"rx": r"(?P<valve>VA[0-9]{2})$", "cores": ["VA01", "VA12"]},                                                # end only
+    {"rx": r"^(?P<pos>[1-8])$", "cores": ["1", "8"]},                                                            # both
+    {"rx": r"(?P<state>on|off)", "cores": ["on", "off"]},                                                        # bare alternation
+    {"rx": r"\s*(?P<speed>-?[0-9]+)\s*(?P<speed_unit>rpm)\s*$", "cores": ["100 rpm", "-5rpm"]},                    # leading \s*, end
+]
 _NAME_RE = re.compile(r"^[A-Za-z][A-Za-z0-9 _%]{0,20}[A-Za-z0-9%]$|^[A-Za-z]$")
 
 
@@ -72,6 +84,9 @@ def spec_ok(spec) -> bool:
                 return False
         elif k == "text":
             if not isinstance(a.get("allow_empty"), bool):
+                return False
+        elif k == "regex":
+            if not isinstance(a.get("pat"), int) or isinstance(a.get("pat"), bool) or not (0 <= a["pat"] < len(HAND_REGEX)):
                 return False
         elif k != "noargs":
             return False
@@ -115,6 +130,10 @@ def build_gen_uod(h, hw, spec):
         log(cmd, value)
         cmd.set_complete()
 
+    def f_groups(cmd: UodCommand, **groups):
+        log(cmd, " ".join("%s=%s" % kv for kv in sorted(groups.items())))
+        cmd.set_complete()
+
     b = (UodBuilder().with_instrument("GenUnit").with_author("verif", "verif@example.org").with_filename(__file__)
          .with_hardware(hw).with_location("nowhere"))
     for t in spec["tags"]:
@@ -134,6 +153,8 @@ def build_gen_uod(h, hw, spec):
             b.with_command_regex_arguments(name=c["name"], arg_parse_regex=rx, exec_fn=f_option)
         elif a["kind"] == "text":
             b.with_command_regex_arguments(name=c["name"], arg_parse_regex=RegexText(allow_empty=a["allow_empty"]), exec_fn=f_text)
+        elif a["kind"] == "regex":
+            b.with_command_regex_arguments(name=c["name"], arg_parse_regex=HAND_REGEX[a["pat"]]["rx"], exec_fn=f_groups)
         else:
             b.with_command(name=c["name"], exec_fn=f_none, arg_parse_fn=None)
     uod = b.build()
@@ -240,7 +261,7 @@ def uod_specs(draw):
     cnames = draw(st.lists(st.sampled_from(CMD_POOL), min_size=1, max_size=4, unique=True))
     cmds = []
     for n in cnames:
-        k = draw(st.sampled_from(["number", "number", "number", "categorical", "categorical", "text", "noargs", "default"]))
+        k = draw(st.sampled_from(["number", "number", "number", "categorical", "categorical", "text", "noargs", "default", "regex", "regex", "regex"]))
         if k == "number":
             units = draw(st.lists(st.sampled_from(ALL_UNITS), min_size=0, max_size=3, unique=True))
             a = {"kind": "number", "units": units, "non_negative": draw(st.booleans()), "int_only": draw(st.booleans())}
@@ -254,6 +275,8 @@ def uod_specs(draw):
             a = {"kind": "text", "allow_empty": draw(st.booleans())}
         elif k == "noargs":
             a = {"kind": "noargs"}
+        elif k == "regex":
+            a = {"kind": "regex", "pat": draw(st.integers(0, len(HAND_REGEX) - 1))}
         else:
             a = None
         cmds.append({"name": n, "arg": a})
@@ -388,6 +411,28 @@ def cmd_arg(draw, a, near: bool):
         if not near:
             return draw(st.sampled_from(["hello", "a b c", "x"]))
         return draw(st.sampled_from(["", " ", "x"]))
+    if k == "regex":
+        core = draw(st.sampled_from(HAND_REGEX[a["pat"]]["cores"]))
+        if not near:
+            return core
+        v = draw(st.sampled_from(["prefix", "prefix", "suffix", "suffix", "both", "empty", "text", "case", "inner-space", "twice"]))
+        pre = draw(st.sampled_from(["about ", "-", "=", "x", "~ ", "0", "set ", "+"]))
+        suf = draw(st.sampled_from([" approx", "x", " !", "0", ".", " now", "2"]))
+        if v == "prefix":
+            return pre + core
+        if v == "suffix":
+            return core + suf
+        if v == "both":
+            return pre + core + suf
+        if v == "empty":
+            return ""
+        if v == "text":
+            return draw(st.sampled_from(["abc", "m2", "VA", "9", "on/off"]))
+        if v == "case":
+            return core.swapcase()
+        if v == "inner-space":
+            return core.replace(" ", "  ") if " " in core else " ".join(core)
+        return core + " " + core
     return "" if not near else draw(st.sampled_from(["3", "x", " "]))
 
 
